@@ -17,7 +17,7 @@ TECHNIQUE = 'exhaustive enumeration of all schedule window positions / round ind
 LEVEL_TEXT = ('Every one of the (total-Nk+1) x (total+1) (col_in, col_out) pairs for each AES key size is executed on batches of >=280 keys and on single keys and must return exactly the '
               'corresponding slice of the FIPS-197 schedule of the key the window was cut from; inv_key_schedule from every round; DES key_schedule for every interruption round on every '
               '1-/2-bit (and complemented) key; get_master_key from every one of the 16 round keys must return the original key up to parity bits.')
-LEVEL_NOTE = 'Trusted: numpy, reference schedules. get_master_key is exercised on 2 (quick) / 8 (thorough) keys per round index because each call costs ~1 s.'
+LEVEL_NOTE = 'Trusted: numpy, reference schedules. get_master_key is exercised on 5 (quick) / 12 (thorough) keys per round index (each call costs ~1 s), including the keys whose 8 searched bits are all ones / all zeros.'
 DESIGN_REF = 'DESIGN.md section 3, C10'
 
 
@@ -178,6 +178,21 @@ def _master(shard, ctx, col, np):
     nkeys = 2 if ctx['tier'] == 'quick' else 8
     rng = rng_for(ctx['seed'], 'c10-master', r)
     ks = [list(bytes.fromhex('133457799BBCDFF1'))] + rng.randint(0, 256, (nkeys - 1, 8)).tolist()
+    # the 8 effective key bits that round key r does not contain have to be searched (2^8 candidates): put them all to one and all to zero,
+    # i.e. make the true key the first / the last candidate of that search whatever its order
+    base = rng.randint(0, 256, 8).tolist()
+    ref_rk = R.key_schedule(base)[r]
+    free = []
+    for byte in range(8):
+        for bit in range(1, 8):                       # bit 0 of each byte is the parity bit
+            k2 = list(base); k2[byte] ^= (1 << bit)
+            if R.key_schedule(k2)[r] == ref_rk: free.append((byte, bit))
+    if len(free) != 8:
+        col.guard(False, 'reference: %d key bits are not covered by round key %d (expected 8)' % (len(free), r))
+    hi = list(base); lo = list(base)
+    for byte, bit in free:
+        hi[byte] |= (1 << bit); lo[byte] &= ~(1 << bit) & 0xFF
+    ks += [hi, lo, [0xFF] * 8] + ([[0x00] * 8] if ctx['tier'] == 'thorough' else [])
     for k in ks:
         pt = rng.randint(0, 256, 8).tolist()
         ct = R.encrypt_block(pt, k)
